@@ -60,6 +60,9 @@ BUILT = {
  "C18": ("fault_enumeration", "runtime monitor: fault injection at every (member, line) abort point of real named-paths runs under a 'raise' policy, observed at the caller boundary and by archive checkers, tree+hash snapshots and a follow-up run",
          "For each generated group every abort point x 2 fault kinds is executed (methods rotating over all six): the exception must reach the caller, every started member must have readable meta/vars/errors with the aborting error and its line number and completed false, earlier members must stay complete and consistent, the run manifest must not say complete, inputs/ must be unchanged, and a following run on the same instance must archive normally in its own directory. Known finding F20 (abort on the final record) is reported after all other obligations were checked.",
          "data-driven faults (argument rejected by add(); ZeroDivisionError inside mod()); members pre-checked to be fault-free otherwise", "DESIGN.md#c18"),
+ "C19": ("exploration", "runtime monitor: relational comparison of result tuples across processes - in-sequence vs fresh-process cold-cache twin vs warm-cache process vs direct CsvPath() vs repeat; labelled same-path-new-bytes sub-scenario",
+         "Each generated sequence of 2-6 jobs over files with hostile header cells is run in one process through CsvPaths().csvpath(); every job is re-run first in a fresh process with an empty cache, directly, repeated, and again in a new process on the warm cache; all result tuples (lines, variables, printouts, errors, verdict, counters, headers, line count) must be identical.",
+         "fresh-process twin is the reference; time/random functions not generated", "DESIGN.md#c19"),
 }
 
 def source_commits():
